@@ -179,6 +179,8 @@ def run(rep):
                 # drop flags
                 if not g2['calls'] and all(p and p[1] == '' for p in g2['places']) and is_drop_flag(B, g2):
                     continue
+                if other_edges_only_fail(B, g2, bb):
+                    continue   # a rejecting check (`if !supported(ty) { return Err(..) }`): no binding is left out of a module that is accepted
                 extra.append((g2['block'], names, g2['places'][:2]))
             rep.check(not extra, 'C11.R2.every-binding-collected', key, B.where(bb),
                       f'the push is additionally guarded by {extra[:3]}: some declared bindings may be left out of their group',
@@ -335,6 +337,25 @@ def run(rep):
         for bb, st in agg_sites(b, f'{ERR}::DuplicateBinding'):
             pass
     rep.info['pushes'] = n_push
+
+
+def other_edges_only_fail(B, g, bb):
+    """every edge of the guard that does not lead to block bb can only leave the function with an Err: neither an Ok return of this
+    function nor bb itself (through the loop) is reachable from it, and it does return (no divergence into a panic is accepted here)"""
+    t = B.blocks[g['block']]['term']
+    edges = [(v, tgt) for v, tgt in t['targets']] + [(None, t['otherwise'])]
+    others = [tgt for v, tgt in edges if v not in g['values'] and B.blocks[tgt]['term']['k'] != 'unreachable']
+    if not others:
+        return False
+    ok_blocks = {b_ for b_, st_ in agg_sites(B, 'std::result::Result::Ok') if st_['lhs']['l'] == 0}
+    err_blocks = {b_ for b_, st_ in agg_sites(B, 'std::result::Result::Err') if st_['lhs']['l'] == 0}
+    for tgt in others:
+        r = B.reachable_from([tgt], avoid={g['block']})
+        if bb in r or (r & ok_blocks) or not (r & err_blocks):
+            return False
+        if any(B.blocks[b_]['term']['k'] == 'switch' and g['block'] in [x[1] for x in B.blocks[b_]['term']['targets']] + [B.blocks[b_]['term']['otherwise']] for b_ in r):
+            return False   # flows back to the guard (a loop): the variable is skipped, not rejected
+    return True
 
 
 def keeps_exactly_bound_variables(mir, B):
